@@ -24,7 +24,7 @@ Variable rec_item : ritem -> dstate -> option dstate.   (* get_dependencies, one
 Definition obind {A B} (x : option A) (f : A -> option B) : option B :=
   match x with Some a => f a | None => None end.
 
-(* the Simple arm; also used for each parameter of a Generic *)
+(* the Simple arm; the Generic arm does the same with the generic type's own id *)
 Definition visit_name (id : str) (s : dstate) : option dstate :=
   match types id with
   | None => Some s
@@ -39,16 +39,10 @@ Definition visit_name (id : str) (s : dstate) : option dstate :=
 Fixpoint deps_type (tp : rtype) (s : dstate) : option dstate :=
     (match tp with
      | RGeneric id params =>
-       match types id with
-       | None => Some s
-       | Some it =>
-         let '(fresh, s1) := seen_insert id s in
-         if fresh then
-           obind (rec_item it (res_push id s1)) (fun s2 =>
-           obind (fold_left (fun acc p => obind acc (visit_name (rtype_id p))) params (Some s2)) (fun s3 =>
-           Some (seen_remove id s3)))
-         else Some s
-       end
+       (* the generic type itself, if it is typeshared; then EVERY argument, whatever the generic
+          type is: `for parameter in parameters { get_dependencies_from_type(parameter, ..) }` *)
+       obind (visit_name id s) (fun s1 =>
+       fold_left (fun acc p => obind acc (deps_type p)) params (Some s1))
      | RSimple id => visit_name id s
      | RHashMap k v => obind (deps_type k s) (deps_type v)
      | ROption x => deps_type x s
